@@ -122,6 +122,10 @@ class Symbol(ExpressionToken):
         if extern_mapping:
             extern = compiler.symbols.get(extern_mapping[1])
             if extern:
+                # The file's own definition takes precedence over an external
+                # one, but may still follow; don't bind to the external symbol
+                # before the whole program is known.
+                not_ready()
                 return extern
 
         not_ready()
